@@ -12,7 +12,9 @@ META = {
             'C09_fatal: scan error = fs exactly when traversalFaultScan, for all forests and fault plans.',
 }
 THEOREMS = ['Scalibr.Walk.C09_no_panic', 'Scalibr.Walk.C09_nonfatal', 'Scalibr.Walk.C09_contained', 'Scalibr.Walk.C09_surfaced',
-            'Scalibr.Walk.C09_status_meaning', 'Scalibr.Walk.C09_fatal', 'Scalibr.Walk.C09_fatal_step', 'Scalibr.Walk.walkNode_fatal', 'Scalibr.Walk.walkNode_stack', 'Scalibr.Walk.mustOne_contained']
+            'Scalibr.Walk.C09_status_meaning', 'Scalibr.Walk.C09_fatal', 'Scalibr.Walk.C09_fatal_step', 'Scalibr.Walk.walkNode_fatal', 'Scalibr.Walk.walkNode_stack', 'Scalibr.Walk.mustOne_contained',
+            'Scalibr.Walk.C09_contained_run', 'Scalibr.Walk.C09_contained_noFaults', 'Scalibr.Walk.C09_gitignore_unreadable', 'Scalibr.Walk.C09_gitignore_unreadable_run',
+            'Scalibr.Walk.C09_fatal_anchor', 'Scalibr.Walk.C09_fatal_declarative', 'Scalibr.Walk.C09_fatal_clean', 'Scalibr.Walk.C09_eofs_only_by_failing']
 
 
 def run(ctx):
